@@ -246,6 +246,14 @@ def execute(case: dict) -> dict:
                         for p in world.peers:
                             if p.requests and p.requests[-1] == n:
                                 p.tainted = p.tainted or f"exchange r{n} failed with {type(e).__name__}"
+                    # surplus that arrived in the very segment that completed the response was there when the
+                    # connection was released: such a connection must not even go back into the pool
+                    if "error" not in res and op["peer"].get("surplus") and op["peer"].get("surplus_when") == "same" and not case.get("s2c") \
+                            and op["read"] == "full":
+                        pooled = {id(pr.transport) for q in getattr(conn, "_conns", {}).values() for pr, _t in q}
+                        for p in world.peers:
+                            if p.requests and p.requests[-1] == n and p.transport is not None and id(p.transport.peer) in pooled:
+                                raise Violation("tainted-connection-pooled", f"connection {p.idx} went back into the pool although surplus bytes followed response r{n} in the same segment")
                     res["new_conn"] = len(world.peers) > before
                     if not res["new_conn"]:
                         stats["reused"] += 1
